@@ -59,6 +59,8 @@ From OV Require Proofs.SrcEqMesh.
      fix_fixpoints                   rnd x = x  <->  x has at most N decimals
      sci_formatter_laws              the same with |rnd x - x| <= |x| 10^-N / 2 (relative), and what is printed has exactly
                                      N+1 significant digits (or is 0)
+     sci_formatter_ulp               10^e <= |x| < 10^(e+1) for e = dexp x, and |rnd x - x| <= 10^(e-N) / 2: half a unit of the
+                                     last of the N+1 digits; the printed exponent is e, or e+1 with mantissa 1.00..0 (carry)
      file_roundtrip_fix, file_roundtrip_fix_twice, file_roundtrip_fix_exact, file_roundtrip_sci
                                      Mesh1D<Rat,Rat>: write + read = the mesh rounded entry by entry, every entry within
                                      half a unit of the last digit; a second round trip is the identity; entries with at
@@ -449,6 +451,23 @@ Example sci_formatter_laws_nonvacuous :
   map (fmt_sci 2) [q 1 3; q (-2) 7; q 12345 1000; q 9995 1000; q 1 123456; q 0 1] =
   [STok false 333 (-1); STok true 286 (-1); STok false 123 1; STok false 100 1; STok false 810 (-6); STok false 0 0].
 Proof. vm_compute. reflexivity. Qed.
+
+Theorem sci_formatter_ulp : forall (N : nat) (x : Qc), ~ (x == 0)%Q ->
+  ((10 # 1) ^ dexp x <= Qabs x < (10 # 1) ^ (dexp x + 1))%Q /\
+  (Qabs (rnd_sci N x - x) <= (1 # 2) * (10 # 1) ^ (dexp x - Z.of_nat N))%Q /\
+  (st_exp (fmt_sci N x) = dexp x \/
+   st_exp (fmt_sci N x) = (dexp x + 1)%Z /\ st_mant (fmt_sci N x) = (10 ^ Z.of_nat N)%Z).
+Proof. intros N x. exact (MeshIO3Fmt.rnd_sci_ulp N x). Qed.
+Check sci_formatter_ulp : forall (N : nat) (x : Qc), ~ (x == 0)%Q ->
+  ((10 # 1) ^ dexp x <= Qabs x < (10 # 1) ^ (dexp x + 1))%Q /\
+  (Qabs (rnd_sci N x - x) <= (1 # 2) * (10 # 1) ^ (dexp x - Z.of_nat N))%Q /\
+  (st_exp (fmt_sci N x) = dexp x \/
+   st_exp (fmt_sci N x) = (dexp x + 1)%Z /\ st_mant (fmt_sci N x) = (10 ^ Z.of_nat N)%Z).
+Print Assumptions sci_formatter_ulp.
+(* 9.995 lies in the decade of 10^0; three digits: 9.995 -> 10.0 = 1.00e1 (the carry case) *)
+Example sci_formatter_ulp_nonvacuous :
+  ~ (q 9995 1000 == 0)%Q /\ dexp (q 9995 1000) = 0%Z /\ fmt_sci 2 (q 9995 1000) = STok false 100 1.
+Proof. split; [discriminate|]. split; vm_compute; reflexivity. Qed.
 
 Theorem file_roundtrip_fix : forall (N : nat) (m m0 : mesh1 AQ AQ),
   wf1 m -> m1_nvars m0 = m1_nvars m -> Forall (fun r => length r = m1_nvars m0) (m1_vars m0) ->
